@@ -266,13 +266,13 @@ def r3_5(ctx):
 
 
 def run(ctx):
-    r3_1_2(ctx)
-    r3_3(ctx)
-    r3_5(ctx)
+    ctx.do(r3_1_2)
+    ctx.do(r3_3)
+    ctx.do(r3_5)
     from . import c10, c12
-    c10.r10_3(ctx)
-    c10.r10_4(ctx)
-    c10.r10_4_units(ctx)
-    c12.r12_1(ctx)
+    ctx.do(c10.r10_3)
+    ctx.do(c10.r10_4)
+    ctx.do(c10.r10_4_units)
+    ctx.do(c12.r12_1)
     for k, v in PAIR_EXEMPT.items():
         ctx.trust(f"frozen pairing exemption: {k} - {v}")
